@@ -131,6 +131,8 @@ def run(tier, rep):
                "- \n", ">\n", "[x]\n\n[x]: /u\n", "| a |\n|---|\n| b |\n", "```py\nx\n```\n", "<div>\n", "a  \nb\\\nc\n"]
     docs = gen.sample(l1, 7000 if q else 100000, C.SEED, keep_short=400) + gen.sample(l2, 9000 if q else 150000, C.SEED + 1) + special * 20
     ck = [gen.cfg_key(c) for c in gen.BASE_CONFIGS] + [gen.cfg_key({"preset": "commonmark", "on": [], "off": [], "opts": [["store_labels", "T"], ["inline_definitions", "T"]]})] \
+        + [gen.cfg_key({"preset": "commonmark", "on": [], "off": ["fragments_join"], "opts": []}),
+           gen.cfg_key({"preset": "js-default", "on": [], "off": ["balance_pairs", "text_join"], "opts": []})] \
         + gen.sample([gen.cfg_key(c) for c in cfgs], 30 if q else 300, C.SEED + 2)
     jobs = [(ck[k % len(ck)], d, seqs[(k * 31 + 7) % len(seqs)]) for k, d in enumerate(docs)]
     res = C.pmap(execute, jobs, chunk=200)
